@@ -309,6 +309,101 @@ static void over_interp(vh::Rng & rng, unsigned nfields)
     }
 }
 
+// ------------------------------------------------------------------ clamp BELOW an interpolator
+// interp<clamp<strided<array>>>: the interpolator turns a real coordinate into integer ones, the clamp
+// beneath makes every one of them safe (x >= 0, bounded by 2^32 so the float->index conversion is defined)
+template <typename R, std::size_t N, bool LINEAR>
+static void under_interp(vh::Rng & rng, unsigned nfields)
+{
+    using idx_d = cv::vector_d<std::size_t, N>;
+    using order_t = cb::strided<idx_d, cb::array<cv::float1>>;
+    using clamp_t = cb::clamp<order_t>;
+    using backend_t = std::conditional_t<LINEAR, cb::linear<clamp_t, cv::vector_d<R, N>>, cb::nearest_neighbour<clamp_t, cv::vector_d<R, N>>>;
+    using field_t = covfie::field<backend_t>;
+    std::string name = std::string(LINEAR ? "linear" : "nearest_neighbour") + "<clamp<strided<array>>>," + vh::tn<R>() + ",N=" + std::to_string(N);
+    if (!vh::selected(name)) return;
+    for (unsigned fi = 0; fi < nfields; ++fi) {
+        covfie::utility::nd_size<N> ext;
+        typename clamp_t::configuration_t cfg;
+        for (std::size_t k = 0; k < N; ++k) {
+            ext[k] = 1 + rng.below(N <= 2 ? 12 : 5);
+            cfg.min[k] = rng.below(3) ? 0 : rng.below(ext[k]);
+            cfg.max[k] = rng.below(3) ? ext[k] - 1 : cfg.min[k] + rng.below(ext[k] - cfg.min[k]);
+        }
+        vh::set_case("%s field#%u extents=%s", name.c_str(), fi, vh::jarr(ext, N).c_str());
+        field_t f(covfie::make_parameter_pack(std::monostate{}, typename clamp_t::configuration_t(cfg), typename order_t::configuration_t(ext)));
+        typename order_t::non_owning_data_t raw(f.backend().get_backend().get_backend());
+        {
+            uint64_t c[N] = {};
+            for (;;) {
+                typename order_t::contravariant_input_t::vector_t cc;
+                for (std::size_t k = 0; k < N; ++k) cc[k] = c[k];
+                raw.at(cc)[0] = (float)(rng.range(-1000, 1000));
+                std::size_t k = 0;
+                while (k < N && ++c[k] >= ext[k]) c[k++] = 0;
+                if (k == N) break;
+            }
+        }
+        typename field_t::view_t view(f);
+        for (unsigned q = 0; q < 1200; ++q) {
+            typename field_t::coordinate_t c;
+            Q frac[N];
+            uint64_t base[N];
+            bool outside = false;
+            for (std::size_t k = 0; k < N; ++k) {
+                R v;
+                switch (rng.below(7)) {
+                case 0: v = (R)cfg.min[k]; break;
+                case 1: v = (R)cfg.max[k]; break;
+                case 2: v = (R)(cfg.max[k] + 1); break;
+                case 3: v = (R)(rng.unit() * 4.0e9); break;                 // far beyond the grid
+                case 4: v = (R)((double)ext[k] + rng.unit() * 5); break;
+                default: v = (R)(rng.unit() * (double)(ext[k] + 1)); break;
+                }
+                if (!(v >= 0)) v = 0;
+                c[k] = v;
+                if (LINEAR) {
+                    Q fl = floorq((Q)v);
+                    base[k] = (uint64_t)fl;
+                    frac[k] = (Q)v - fl;
+                } else {
+                    frac[k] = (Q)v;
+                    base[k] = 0;
+                }
+                outside = outside || (Q)v < (Q)cfg.min[k] || (Q)v > (Q)cfg.max[k];
+            }
+            float got = view.at(c)[0];
+            vh::ev();
+            if (outside) vh::nontrivial(vh::fnv(&c, sizeof c, vh::fnv(&ext, sizeof ext, vh::fnv(name))));
+            std::string d = "extents=" + vh::jarr(ext, N) + " box=[" + vh::jarr(cfg.min, N) + "," + vh::jarr(cfg.max, N) + "] c=" + vh::jarr(c, N) + " got=" + std::to_string(got);
+            auto clampi = [&](uint64_t i, std::size_t k) { return i < cfg.min[k] ? cfg.min[k] : (i > cfg.max[k] ? cfg.max[k] : i); };
+            if (LINEAR) {
+                iref::Result r = iref::nlinear(N, frac, [&](uint64_t bits) -> Q {
+                    typename order_t::contravariant_input_t::vector_t cc;
+                    for (std::size_t k = 0; k < N; ++k) cc[k] = clampi(base[k] + ((bits >> k) & 1), k);
+                    return (Q)raw.at(cc)[0];
+                });
+                if (!(fabsq((Q)got - r.exact) <= iref::bound<R, float>(N, r.absum, r.vsum))) vh::viol(name, d + " exact=" + iref::qs(r.exact));
+            } else {
+                // admissible: a lattice point within 1/2 of x on every axis, then clamped
+                bool ok = false;
+                for (uint64_t bits = 0; bits < (1ull << N) && !ok; ++bits) {
+                    typename order_t::contravariant_input_t::vector_t cc;
+                    bool adm = true;
+                    for (std::size_t k = 0; k < N; ++k) {
+                        Q fl = floorq(frac[k] + (Q)0.5) - (Q)((bits >> k) & 1);
+                        adm = adm && fl >= 0 && fabsq(fl - frac[k]) <= (Q)0.5;
+                        cc[k] = clampi((uint64_t)(fl < 0 ? 0 : fl), k);
+                    }
+                    ok = adm && raw.at(cc)[0] == got;
+                }
+                if (!ok) vh::viol(name, d + " is not the value at the clamp of a nearest lattice point");
+            }
+            if (fi == 1 && q == 3) vh::sample(name, d, 1);
+        }
+    }
+}
+
 int main(int argc, char ** argv)
 {
     vh::init(argc, argv);
@@ -367,6 +462,13 @@ int main(int argc, char ** argv)
     over_interp<float, 3, true>(rng, nf);
     over_interp<double, 2, true>(rng, nf);
     over_interp<double, 4, true>(rng, nf);
+    under_interp<float, 1, false>(rng, nf);
+    under_interp<float, 2, false>(rng, nf);
+    under_interp<double, 3, false>(rng, nf);
+    under_interp<float, 1, true>(rng, nf);
+    under_interp<float, 2, true>(rng, nf);
+    under_interp<double, 3, true>(rng, nf);
+    under_interp<float, 4, true>(rng, nf);
 #endif
     return vh::finish();
 }
